@@ -665,6 +665,9 @@ func ReadFunction(env *Zlisp, name string, args []Sexp) (sx Sexp, err error) {
 	env.parser.ResetAddNewInput(bytes.NewBuffer([]byte(str)))
 	//exp, err := env.parser.ParseExpression(0)
 	// have to use the iter interface...once.
+	// an empty text has no expression: that reads as nil, not as a
+	// Go nil (which the printer and the array constructor dereference)
+	sx = SexpNull
 	for reply := range env.parser.ParsingIter() {
 		err = reply.Err
 		if len(reply.Expr) > 0 {
